@@ -50,6 +50,7 @@ class P(Prop):
         ("TracklibVerif.Props.C17", "TV.C17.abscurv_monotone_rounded", "abs_curv never decreases WITHOUT exact arithmetic: any preorder, only 0 <= sqrt x and (0 <= d -> a <= a + d) — the two facts of correctly rounded IEEE addition / sqrt — are assumed"),
         ("TracklibVerif.Props.C17", "TV.C17.curvabs_table", "computeCurvAbsBetweenTwoPoints on a lawful table only reads and (exact arithmetic) returns absc (n-1), the value abs_curv ends at"),
         ("TracklibVerif.Props.C17", "TV.C17.spec_table_lawful", "C01's specification table (name -> column) satisfies the laws of a feature table"),
+        ("TracklibVerif.Props.C17", "TV.C17.dict_rows_table_lawful", "C01's dict-and-rows table St of a single track (name -> index dict, one features row per observation) satisfies the laws of a feature table under C01's alignment invariant: every table theorem holds on the table as Python lays it out"),
         ("TracklibVerif.Props.C17", "TV.C17.shared_world_lawful", "the world of Obs OBJECTS shared between tracks (per-object features list, per-track name->index dict) satisfies the laws for the track in focus whenever its objects carry AT LEAST as many slots as its dict lists (extra slots from other tracks allowed)"),
         ("TracklibVerif.Props.C17", "TV.C17.abscurv_shared", "computeAbsCurv(track k) as one step of a history on shared observations: returns [absc 0..] of the current positions whatever foreign slots the objects carry; track k reads it under abs_curv"),
         ("TracklibVerif.Props.C17", "TV.C17.speed_shared", "estimate_speed(track k) on shared observations: speed column of the current positions and of the absolute times of the CURRENT timestamp fields"),
@@ -71,7 +72,6 @@ class P(Prop):
     ]
     partial = []
     open_statements = ["IEEE rounding of sqrt / + / division is outside the theorems (ordered-field statement; the recurrences abscurv_prefix / abscurv_table / speed_table hold for any scalar type, so also for the Float operations in Python's order); sampled by the transfer check with rel. tolerance 1e-9",
-                       "the laws are proved for the specification table and for the world of shared observations; for C01's dict-and-rows table `St` of a single track they follow from C01's simulation theorems and are not restated here",
                        "world histories (shared observations, in-place edits) are generated for ENUCoords only; Geo / ECEF tracks are single-track cases (Model/CinematicsCoords.lean is a list model, not yet an instance of the table laws)",
                        "geo_distance_horizontal is over the reals: the rounding of the geodetic -> ECEF -> local-frame chain (sin, cos, atan2, pow, sqrt of libm) is outside the theorems; the oracle bounds it by 1e-6 m against its own geodesy (measured < 1e-8 m)",
                        "GeoCoords.toENUCoords is modelled for STANDARD_PROJ == 1 (the module constant of this tree) only"]
